@@ -77,6 +77,24 @@ def _write_tmp(text):
         return f.name
 
 
+def _qf_text(smt2):
+    """The query with every quantified HYPOTHESIS dropped (the last assertion is the negated goal and is kept).
+    Weaker than the input: only its ``unsat`` counts."""
+    try:
+        fs = list(z3.parse_smt2_string(smt2))
+        if len(fs) < 2:
+            return None
+        keep = [f for f in fs[:-1] if not any(z3.is_quantifier(e) for e in _walk([f]))]
+        if len(keep) == len(fs) - 1:
+            return None
+        s = z3.Solver()
+        for f in keep + [fs[-1]]:
+            s.add(f)
+        return s.to_smt2()
+    except z3.Z3Exception:
+        return None
+
+
 def _inst_text(smt2):
     """Ground-instantiated (weaker) version of a query, or None."""
     try:
@@ -120,7 +138,18 @@ def solve_one(job):
             return (idx,) + _race([("z3-5.1.0", z3cmd(tsec)), ("cvc5-1.0.3", cvccmd)], tsec)
         secs, reason, backend = 0.0, "", "z3-5.1.0"
         if has_q:
-            # quick attempt on the full query first (most obligations need no quantifier reasoning at all)
+            # most obligations need no quantified hypothesis at all: try without them first (only unsat counts)
+            t0 = time.time()
+            qf = _qf_text(smt2)
+            secs += time.time() - t0
+            if qf is not None:
+                qpath = _write_tmp(qf)
+                paths.append(qpath)
+                rq, sq, bq, _ = _race([("z3-5.1.0", [Z3_BIN, "-T:3", "-memory:%d" % MEM_MB, qpath])], 3)
+                secs += sq
+                if rq == "unsat":
+                    return idx, rq, secs, bq + "(quantifier-free hypotheses only)", ""
+            # then a quick attempt on the full query
             r0, s0, b0, reason0 = _race([("z3-5.1.0", z3cmd(3))], 3)
             secs += s0
             if r0 != "unknown":
@@ -135,16 +164,11 @@ def solve_one(job):
                 secs += s2
                 if r2 == "unsat":
                     return idx, r2, secs, b2 + "(ground-instantiated)", ""
-        r, s1, backend, reason = _race([("z3-5.1.0", z3cmd(tsec))], tsec)
+        members = [("z3-5.1.0", z3cmd(tsec))] + ([("cvc5-1.0.3", cvccmd)] if use_cvc5 else [])
+        r, s1, backend, reason = _race(members, tsec)
         secs += s1
         if r != "unknown":
             return idx, r, secs, backend, reason
-        if use_cvc5:
-            r4, s4, b4, reason4 = _race([("cvc5-1.0.3", cvccmd)], tsec)
-            secs += s4
-            if r4 != "unknown":
-                return idx, r4, secs, b4, reason4
-            reason = "%s | %s" % (reason, reason4)
         return idx, "unknown", secs, backend, reason
     finally:
         for p in paths:
@@ -337,7 +361,8 @@ def ackermannize(formulas, rounds=4, subs_out=None):
                         bad.add(c.get_id())
         # an array const also occurring under a quantifier body as non-read is caught above; occurrences inside
         # quantifier bodies are walked too (bodies contain vars -> reads at var indices mark it bad)
-        todo = [aid for aid in reads if aid not in bad]
+        # the congruence axioms are quadratic in the number of reads: arrays read at many places stay arrays
+        todo = [aid for aid in reads if aid not in bad and len(reads[aid]) <= 40]
         if not todo:
             break
         subs, extra = [], []
@@ -583,7 +608,8 @@ def ackermannize(formulas, rounds=4, subs_out=None):
                         bad.add(c.get_id())
         # an array const also occurring under a quantifier body as non-read is caught above; occurrences inside
         # quantifier bodies are walked too (bodies contain vars -> reads at var indices mark it bad)
-        todo = [aid for aid in reads if aid not in bad]
+        # the congruence axioms are quadratic in the number of reads: arrays read at many places stay arrays
+        todo = [aid for aid in reads if aid not in bad and len(reads[aid]) <= 40]
         if not todo:
             break
         subs, extra = [], []
